@@ -249,7 +249,7 @@ def _detect_causes(
         new=new,
         diff=diff,
         memo=memory.memo,
-        initial=memory.noticed_by_listing and not memory.fully_handled_once,
+        initial=bool(memory.noticed_by_listing) and not memory.fully_handled_once,
     ) if registry._changing.has_handlers(resource=resource) else None
 
     return _Causes(watching_cause, spawning_cause, changing_cause)
